@@ -59,7 +59,7 @@ SITES = tuple(render_sites.SITES)
 @st.composite
 def c20_case(draw):
     n = draw(st.integers(2, 9))
-    bb = draw(st.sampled_from([2, 4, 10, 100]))
+    bb = draw(st.sampled_from([2, 4, 10, 100, 100, 400]))
     chip_t = draw(st.sampled_from(['int', 'int', 'dec']))
     style = draw(st.integers(0, 3))
     if style == 0:
@@ -86,7 +86,8 @@ def c20_case(draw):
     return dict(config=cfg, tape=draw(gen.tapes(70)), seats=seat_of,
                 hero=draw(st.integers(0, n - 1)),
                 site=draw(st.sampled_from(SITES)),
-                corrupt=draw(st.sampled_from([None, None, 'under', 'over'])))
+                corrupt=draw(st.sampled_from([None, None, 'under', 'over'])),
+                thousands=draw(st.booleans()))
 
 
 def budget(tier):
@@ -198,7 +199,14 @@ def check(case, stats):
             stats.count('skipped:short_blind')
             return []
         rec = render_sites.extract(s, case['seats'], case['hero'])
-        log = render(rec, sb, bb)
+        render_sites.THOUSANDS = bool(case.get('thousands')) and \
+            site != 'pokerstars'
+        try:
+            log = render(rec, sb, bb)
+        finally:
+            sep, render_sites.THOUSANDS = render_sites.THOUSANDS, False
+        if sep and ',' in log.replace(', ', ''):
+            stats.count('class:thousands_separator')
         stats.count('site:' + site)
         try:
             hhs = list(importer(log, error_status=True))
